@@ -1,4 +1,230 @@
+"""C07: data-race freedom.  In-family part: lock protocol (spec/Conc.tla NoRace; every public call
+shows a critical section in the scheduler logs).  Sensor part: ThreadSanitizer on free-running
+threads, one block per unordered pair of public methods plus a mixed background thread."""
+import json
+import os
+import random
+import re
+import shutil
+import subprocess
+import time
+from concurrent.futures import ThreadPoolExecutor
+
+import vlib
+from vlib import KINDS, NPROC, OUT, build, cfg_line, log, sh
+import conccheck
+import concmc
+
+# capacity() of the vector-backed containers reads state that never changes after construction
+LOCKLESS_OK = {(k, "capacity") for k in ("lru", "mru", "rr", "tlru", "utlru")}
+
+PUBLIC = {"ins": "insert", "insr": "insert_range", "era": "erase", "erar": "erase_range", "find": "find",
+          "findc": "find_with_use_count", "findr": "find_range", "findf": "find_range_fill", "clean": "clean_expired_values",
+          "age": "dynamically_age", "uttl": "update_ttl", "clear": "clear", "size": "size", "empty": "empty",
+          "capacity": "capacity"}
+
+
+def pair_block(kind, a, b, seed, calls):
+    cap = 0 if kind in ("utmap", "utset") else 3
+    cfg = dict(kind=kind, cap=cap, ts=1, mlf=100, ttl=100000, tick=2, rnum=1, rsh=1, fl=seed % 2, keys=4)
+    return [cfg_line(cfg), "pre ins 1 5 3 100000", "pre ins 2 6 3 100000", "threads 3", "calls %d" % calls,
+            "seed %d" % seed, "record 0", "keys 4", "rounds 1", "method 0 %s" % a, "method 1 %s" % b, "end"]
+
+
+_REPORT = re.compile(r"WARNING: ThreadSanitizer: data race.*?={18}", re.S)
+_FRAME = re.compile(r"#\d+ (.*?) (/\S+?):(\d+)")
+
+
+def parse_reports(text):
+    """Returns list of dict(stacks=[[frames]], methods=[m1, m2], in_library=bool)."""
+    out = []
+    for m in _REPORT.finditer(text):
+        rep = m.group(0)
+        # the first two stacks are the two conflicting accesses
+        parts = re.split(r"\n\s*\n", rep)
+        stacks = []
+        for part in parts:
+            if re.search(r"(Write|Read|Previous write|Previous read|Atomic).* of size", part):
+                frames = _FRAME.findall(part)
+                stacks.append(frames)
+        stacks = stacks[:2]
+        meths = []
+        inlib = []
+        for st in stacks:
+            lib = [f for f in st if "/cappuccino/" in f[1]]
+            inlib.append(bool(lib))
+            name = None
+            for f in lib:
+                mm = re.search(r"cappuccino::\w+<.*?>::(\w+)", f[0]) or re.search(r"::(\w+)\(", f[0])
+                if mm and not mm.group(1).startswith("do_") and mm.group(1) not in ("lock", "unlock"):
+                    name = mm.group(1)
+            if name is None and lib:
+                mm = re.search(r"::(\w+)[(<]", lib[-1][0])
+                name = mm.group(1) if mm else "?"
+            meths.append(name or "?")
+        out.append(dict(methods=meths, in_library=len(inlib) == 2 and all(inlib), text=rep[:3000]))
+    return out
+
+
+def run_blocks(binp, blocks, wd, name, timeout=900):
+    pp = os.path.join(wd, name + ".prog")
+    with open(pp, "w") as f:
+        for b in blocks:
+            f.write("\n".join(b) + "\n")
+    env = dict(os.environ)
+    env["TSAN_OPTIONS"] = "halt_on_error=0:exitcode=68:report_signal_unsafe=0:history_size=4"
+    try:
+        r = subprocess.run([binp, "free", pp, os.path.join(wd, name + ".log")], stdout=subprocess.PIPE,
+                           stderr=subprocess.STDOUT, text=True, errors="replace", timeout=timeout, env=env)
+        return r.returncode, r.stdout
+    except subprocess.TimeoutExpired:
+        return 124, "TIMEOUT"
+
+
 def check(tier):
-    print("not implemented"); return 2
+    from runner import write_evidence, write_replay, seed_of, load_known
+    seed = seed_of()
+    t0 = time.time()
+    rng = random.Random(seed * 31 + 7)
+    wd = os.path.join(OUT, "run_C07_%s_%d" % (tier, os.getpid()))
+    shutil.rmtree(wd, ignore_errors=True)
+    os.makedirs(wd)
+    infra = None
+    viol = []
+    known = []
+
+    # (a) design level: NoRace over the lock protocol table
+    mc = concmc.run("quick", os.path.join(wd, "mc"))
+    if mc.get("infra"):
+        infra = mc["infra"]
+
+    # (b) protocol validation on scheduler logs: every call runs inside a critical section
+    cases = []
+    for i in range(120 if tier == "quick" else 1500):
+        kind = KINDS[i % len(KINDS)]
+        prog = conccheck.gen_program(rng, kind, 2, 2)
+        # make sure every method of the kind appears
+        m = conccheck.METHODS[kind]
+        prog["thr"][0][0] = conccheck.gen_call(rng, kind, prog["cfg"]["keys"], m[(i // len(KINDS)) % len(m)])
+        cases.append((prog, " ".join(conccheck.schedules_for(rng, prog, 1)[0:1])))
+    sr = conccheck.run_sched_batch(cases, os.path.join(wd, "sched"), "p")
+    if sr["infra"]:
+        infra = sr["infra"]
+    nolock = []
+    for prog, sched, ids in sr["nolock"]:
+        for cid in ids:
+            t, c = map(int, cid.split("."))
+            op = prog["thr"][t][c].split()[0]
+            if (prog["cfg"]["kind"], op) in LOCKLESS_OK:
+                continue
+            nolock.append((prog, sched, op))
+    seen = set()
+    for prog, sched, op in nolock:
+        key = (prog["cfg"]["kind"], op)
+        if key in seen:
+            continue
+        seen.add(key)
+        p = conccheck.write_conc_replay("C07", prog, sched)
+        log("C07: %s::%s executed without taking the container lock" % (key[0], PUBLIC.get(op, op)))
+        viol.append("VIOLATION property=C07 replay=%s" % p)
+
+    # (c) sensor: ThreadSanitizer, every unordered pair of public methods
+    binp = build("tsan", "conc")
+    calls = 250 if tier == "quick" else 1500
+    jobs = []
+    npairs = 0
+    for kind in KINDS:
+        m = conccheck.METHODS[kind]
+        blocks = []
+        for i, a in enumerate(m):
+            for b in m[i:]:
+                blocks.append(((a, b), pair_block(kind, a, b, seed + npairs, calls)))
+                npairs += 1
+        # split per kind into a few processes
+        n = 3 if tier == "quick" else 6
+        for j in range(n):
+            part = blocks[j::n]
+            if part:
+                jobs.append((kind, j, part))
+
+    def work(job):
+        kind, j, part = job
+        rc, outp = run_blocks(binp, [b for _, b in part], wd, "t_%s_%d" % (kind, j))
+        return kind, part, rc, outp
+
+    races = {}
+    other_reports = 0
+    with ThreadPoolExecutor(max_workers=NPROC) as ex:
+        for kind, part, rc, outp in ex.map(work, jobs):
+            if rc not in (0, 68):
+                infra = "tsan run failed rc=%s: %s" % (rc, outp[-1500:])
+                continue
+            for rep in parse_reports(outp):
+                if not rep["in_library"]:
+                    other_reports += 1
+                    continue
+                key = (kind,) + tuple(sorted(rep["methods"]))
+                races.setdefault(key, rep)
+    for key, rep in sorted(races.items()):
+        kind, m1, m2 = key
+        # re-run the pair alone for the replay file
+        ops = [o for o, pub in PUBLIC.items() if pub in (m1, m2)]
+        a = ops[0] if ops else "ins"
+        b = ops[-1] if ops else "size"
+        blk = pair_block(kind, a, b, seed, calls)
+        p = write_replay("C07", blk, [], "tsan")
+        log("C07: data race %s: %s vs %s\n%s" % (kind, m1, m2, rep["text"][:1500]))
+        viol.append("VIOLATION property=C07 replay=%s" % p)
+
+    wall = time.time() - t0
+    cov = dict(explanation="lock protocol model-checked (Conc.tla NoRace, %s states); %d scheduler logs checked for a critical "
+                           "section per call; ThreadSanitizer build of the free-running driver: %d method pairs x %d calls "
+                           "per thread x 3 threads over the ten containers, %d library races, %d reports outside the library "
+                           "ignored" % (mc.get("states"), sr["judged"], npairs, calls, len(races), other_reports),
+               evaluations=npairs, distinct_nontrivial=npairs,
+               rule="one block per unordered pair of public methods (self pairs included) per container: thread 0 hammers "
+                    "method A, thread 1 method B, thread 2 a mixed load, all on one object; a pair is non-trivial because "
+                    "both methods run concurrently on the same container",
+               samples=[pair_block("lru", "size", "ins", seed, calls)], states=mc.get("states", 0),
+               transitions=mc.get("transitions", 0), traces_validated_against_impl=sr["judged"],
+               calls_without_critical_section=len(nolock), races=len(races), method_pairs=npairs,
+               model_checking=mc.get("runs"))
+    if infra:
+        cov["infra"] = infra[-800:]
+    write_evidence("C07", tier, seed, "other", cov,
+                   ["ThreadSanitizer (happens-before race detector) as the observer", "TLC for the protocol table",
+                    "a race that needs an interleaving TSan's vector clocks never see in these runs stays invisible"],
+                   wall, len(viol))
+    for ln in known:
+        print(ln)
+    for ln in viol:
+        print(ln)
+    if not os.environ.get("VERIF_KEEP"):
+        shutil.rmtree(wd, ignore_errors=True)
+    if viol:
+        return 1
+    if infra:
+        print("INFRA: " + infra[-1500:])
+        return 2
+    print("OK C07 %s: %d method pairs under TSan, 0 races; %d scheduler logs, every call locked; mc states=%s; %.1fs" %
+          (tier, npairs, sr["judged"], mc.get("states"), wall))
+    return 0
+
+
 def replay(meta, script, path):
-    return 2
+    binp = build("tsan", "conc")
+    wd = os.path.join(OUT, "replay_%d" % os.getpid())
+    os.makedirs(wd, exist_ok=True)
+    rc, outp = run_blocks(binp, [script], wd, "r")
+    shutil.rmtree(wd, ignore_errors=True)
+    reps = [r for r in parse_reports(outp) if r["in_library"]]
+    if reps:
+        print("replay: ThreadSanitizer reports a data race in the library: %s" % reps[0]["methods"])
+        print(reps[0]["text"][:2500])
+        print("VIOLATION property=C07 replay=%s" % path)
+        return 1
+    if rc not in (0, 68):
+        print("replay: infrastructure failure rc=%s %s" % (rc, outp[-800:]))
+        return 2
+    print("replay: no race reported")
+    return 0
